@@ -216,11 +216,28 @@ Section ChunkVerify.
   Definition new_chunk_with_id (i : id) (b : bytes) (skip_verify : bool) : res chunk :=
     let c := mkChunk b [] [] i false in
     if skip_verify then Ok (mkChunk b [] [] i true)
-    else let (sum, c') := chunk_id c in
-         if N.eqb sum i then Ok c' else Err EInvalid.
+    else match chunk_data c with
+         | (None, _) => Err EInvalid          (* ChunkInvalid{ID: id, Sum: ChunkID{}} *)
+         | (Some _, c1) =>
+             let (sum, c') := chunk_id c1 in
+             if N.eqb sum i then Ok c' else Err EInvalid
+         end.
 
   (* NewChunkFromStorage *)
   Definition new_chunk_from_storage (i : id) (b : bytes) (cv : convs) (skip_verify : bool) : res chunk :=
+    let c := mkChunk [] b cv i false in
+    if skip_verify then Ok (mkChunk [] b cv i true)
+    else match chunk_data c with
+         | (None, _) => Err EInvalid          (* no plain data can be produced *)
+         | (Some _, c1) =>
+             let (sum, c') := chunk_id c1 in
+             if N.eqb sum i then Ok c' else Err EInvalid
+         end.
+
+  (* NewChunkFromStorage as it was before commit 27b0229 (no Data() test in front of the
+     comparison).  Not used by the model of the current code; kept for the refutation theorem
+     that documents the defect the commit repaired. *)
+  Definition new_chunk_from_storage_pre27b0229 (i : id) (b : bytes) (cv : convs) (skip_verify : bool) : res chunk :=
     let c := mkChunk [] b cv i false in
     if skip_verify then Ok (mkChunk [] b cv i true)
     else let (sum, c') := chunk_id c in
@@ -454,6 +471,19 @@ Section ChunkVerify.
     | Dedup s' | Swap s' => verifying s'
     | Http _ _ skip _ _ _ => negb skip
     | Proto _ _ => true
+    end.
+
+  (* Verification is enabled at every leaf and at every network client, also behind
+     verifying clients: then the caches inside the stack are fed verified chunks only. *)
+  Fixpoint all_verifying (s : stack) : bool :=
+    match s with
+    | W l => wverifying l
+    | Cache up l => all_verifying up && wverifying l
+    | Router ss => forallb all_verifying ss
+    | Failover _ s0 ss => all_verifying s0 && forallb all_verifying ss
+    | Dedup s' | Swap s' => all_verifying s'
+    | Http _ _ skip _ _ s' => negb skip && all_verifying s'
+    | Proto _ s' => all_verifying s'
     end.
 
   (* ---------- consumers ---------- *)
